@@ -51,6 +51,8 @@ class C06(framework.PropertyCheck):
             before = len(r.out)
             try:
                 v = gen_prog.ref_canon(r.ev(f, r.glob))
+            except gen_prog.RefOutside:
+                return None
             except gen_prog.RefError as e:
                 if k < len(iobs) and iobs[k][0] == 'ok':
                     return {'what': 'the program must raise an error here but produced a value', 'form_index': k, 'form': gen_prog.render(f),
